@@ -1,7 +1,7 @@
 // ---- block sequence level of the correction stream (process.rs): EOF flags, blocks, tree corrections ----
-/// A-TREE (ASSUMED): the operations predict_tree_for_block emits for a dynamic header, as a function of the header and
-/// the token frequencies; recreate_tree_for_block reading them returns the header (assumed contract pair in U18)
-pub uninterp spec fn tree_ops(h: HuffmanOriginalEncoding, f: FreqV) -> Seq<Op>;
+/// the operations predict_tree_for_block emits for a dynamic header (defined in tree_ops.rs, proved in U22), with the
+/// Huffman length calculator the library uses for both directions
+pub open spec fn tree_ops(h: HuffmanOriginalEncoding, f: FreqV) -> Seq<Op> { tree_ops_def(h, f, HufftreeBitCalc::Zlib) }
 
 /// operations for block b at state v: an EOF flag if the text is exhausted, the block, the tree corrections
 pub open spec fn blk_ops(v: PV, e: Env, b: PreflateTokenBlock, last: bool) -> Option<(Seq<Op>, PV)> {
@@ -153,4 +153,79 @@ pub proof fn lemma_blocks_bits_push(bs: Seq<PreflateTokenBlock>, k: int)
 {
     assert(bs.subrange(0, k + 1).drop_last() =~= bs.subrange(0, k));
     assert(bs.subrange(0, k + 1).last() == bs[k]);
+}
+
+/// the script holds `ops` at position p
+pub open spec fn script_has(sc: Seq<Op>, p: int, ops: Seq<Op>) -> bool {
+    0 <= p && p + ops.len() <= sc.len() && sc.subrange(p, p + ops.len()) == ops
+}
+pub proof fn lemma_script_sub(sc: Seq<Op>, p: int, whole: Seq<Op>, off: int, part: Seq<Op>)
+    requires script_has(sc, p, whole), 0 <= off, off + part.len() <= whole.len(), whole.subrange(off, off + part.len()) == part,
+    ensures script_has(sc, p + off, part),
+{
+    assert(sc.subrange(p + off, p + off + part.len()) =~= part) by {
+        assert forall|j: int| 0 <= j < part.len() implies sc[p + off + j] == part[j] by {
+            assert(sc.subrange(p, p + whole.len())[off + j] == sc[p + off + j]);
+            assert(whole.subrange(off, off + part.len())[j] == whole[off + j]);
+        }
+    }
+}
+
+
+/// everything recreate_blocks needs to know about the script at block k, in one place
+#[verifier::rlimit(80)]
+pub proof fn lemma_blk_script(sc: Seq<Op>, p0: int, v0: PV, e: Env, bs: Seq<PreflateTokenBlock>, k: int)
+    requires blks_ops(v0, e, bs, true) is Some, 0 <= k < bs.len(),
+        script_has(sc, p0, blks_ops(v0, e, bs, true)->Some_0.0.push(Op::Mis(m_eof(), false))),
+    ensures ({
+        let an = blks_ops(v0, e, bs, true)->Some_0;
+        let fin = (k == bs.len() - 1);
+        &&& blks_ops(v0, e, bs.subrange(0, k), false) matches Some(ak) && block_ops(ak.1, e, bs[k], fin) matches Some(r1) && ({
+            let eo: int = if ak.1.pos == e.text.len() { 1 } else { 0 };
+            let tr = if bs[k].block_type is DynamicHuff { tree_ops(bs[k].huffman_encoding, freq_v(bs[k].freq)) } else { Seq::<Op>::empty() };
+            let end = ak.0.len() + eo + r1.0.len() + tr.len();
+            &&& script_has(sc, p0 + ak.0.len() + eo, r1.0)
+            &&& script_has(sc, p0 + ak.0.len() + eo + r1.0.len(), tr)
+            &&& blks_ops(v0, e, bs.subrange(0, k + 1), fin) matches Some(a1) && a1.0.len() == end && a1.1 == r1.1
+            &&& (eo == 1 ==> sc[p0 + ak.0.len()] == Op::Mis(m_eof(), true))
+            &&& (fin ==> end == an.0.len() && sc[p0 + end] == Op::Mis(m_eof(), false) && r1.1 == an.1)
+            &&& (!fin && r1.1.pos == e.text.len() ==> sc[p0 + end] == Op::Mis(m_eof(), true))
+            &&& p0 + end < sc.len() || (!fin && r1.1.pos != e.text.len())
+        })
+    }),
+{
+    let an = blks_ops(v0, e, bs, true)->Some_0;
+    let whole = an.0.push(Op::Mis(m_eof(), false));
+    let fin = (k == bs.len() - 1);
+    lemma_blks_ops_split(v0, e, bs, k);
+    let ak = blks_ops(v0, e, bs.subrange(0, k), false)->Some_0;
+    let bk = blk_ops(ak.1, e, bs[k], fin)->Some_0;
+    let r1 = block_ops(ak.1, e, bs[k], fin)->Some_0;
+    let eos = if ak.1.pos == e.text.len() { seq![Op::Mis(m_eof(), true)] } else { Seq::<Op>::empty() };
+    let tr = if bs[k].block_type is DynamicHuff { tree_ops(bs[k].huffman_encoding, freq_v(bs[k].freq)) } else { Seq::<Op>::empty() };
+    assert(bk.0 == eos + r1.0 + tr);
+    assert(whole.subrange(ak.0.len() as int, (ak.0.len() + bk.0.len()) as int) =~= an.0.subrange(ak.0.len() as int, (ak.0.len() + bk.0.len()) as int));
+    lemma_script_sub(sc, p0, whole, ak.0.len() as int, bk.0);
+    assert(bk.0.subrange(eos.len() as int, (eos.len() + r1.0.len()) as int) =~= r1.0);
+    lemma_script_sub(sc, p0 + ak.0.len(), bk.0, eos.len() as int, r1.0);
+    assert(bk.0.subrange((eos.len() + r1.0.len()) as int, (eos.len() + r1.0.len() + tr.len()) as int) =~= tr);
+    lemma_script_sub(sc, p0 + ak.0.len(), bk.0, (eos.len() + r1.0.len()) as int, tr);
+    if eos.len() == 1 {
+        assert(bk.0[0] == Op::Mis(m_eof(), true));
+        assert(sc.subrange(p0 + ak.0.len(), p0 + ak.0.len() + bk.0.len())[0] == sc[p0 + ak.0.len()]);
+    }
+    let end = ak.0.len() + bk.0.len();
+    if fin {
+        assert(whole[an.0.len() as int] == Op::Mis(m_eof(), false));
+        assert(sc.subrange(p0, p0 + whole.len())[an.0.len() as int] == sc[p0 + an.0.len()]);
+    } else {
+        lemma_blks_ops_split(v0, e, bs, k + 1);
+        let nb = blk_ops(r1.1, e, bs[k + 1], k + 1 == bs.len() - 1)->Some_0;
+        if r1.1.pos == e.text.len() {
+            assert(nb.0[0] == Op::Mis(m_eof(), true));
+            assert(an.0.subrange(end as int, (end + nb.0.len()) as int)[0] == an.0[end as int]);
+            assert(whole[end as int] == an.0[end as int]);
+            assert(sc.subrange(p0, p0 + whole.len())[end as int] == sc[p0 + end]);
+        }
+    }
 }
